@@ -425,8 +425,8 @@ def replay_file(path: str) -> int:
     plan = rp["plan"]
     plan["replay"] = True
     for h in rp.get("history") or []:
-        # the violation shows only after these runs were executed in the same process (state carried between instances)
-        h["replay"] = True
+        # the violation shows only after these runs were executed in the same process (state carried between instances);
+        # they run as they were generated (their fault decisions are drawn from their seeds, as in the batch)
         run_one(mod, h)
     res = run_one(mod, plan)
     want = rp["expect"]["signature"]
